@@ -11,10 +11,11 @@ the first lexer error (all of them, ending in `EOF`, if there is none); advancin
 last one (`adv`) is the result `PErr.lexer`, which the driver prints as the lexer's message.
 
 Results.  `PErr.msg s` is `parser::error(s)` (the text without the `[line, col] ` prefix),
-`PErr.lexer` as above, `PErr.ub` marks the one place where the C++ has undefined behaviour
-(`static_cast<id_token *>` of a token that is not an identifier, `_statement`, local field
-with a qualified type after a `,`), `PErr.fuel` is "out of fuel" — it is never accepted
-silently and `C16_parser_total` proves it unreachable from the entry points.
+`PErr.lexer` as above, `PErr.ub` is reserved for places where the C++ has undefined behaviour
+(none at present: the one such place, the unchecked `static_cast<id_token *>` of the name
+after a `,` in a local field with a qualified type, has been fixed in the C++), `PErr.fuel`
+is "out of fuel" — it is never accepted silently and `C16_parser_total` proves it unreachable
+from the entry points.
 
 Recursion.  Every loop/recursion through `_expression`, `_statement`, `_class_declaration`
 is by structural recursion on an explicit fuel argument; the entry points `parseExpr`,
@@ -326,8 +327,8 @@ def localVar (toks : List Tok) : PR (Name × Option Expr) := do
   let (e, t2) ← optInit t1
   pure ((n, e), t2)
 
-/-- one declarator of a local field with a qualified type: `ns.emplace_back(*static_cast<id_token *>(tk)); tk = next();`
-    — the token is an identifier in the first iteration only; after a `,` nothing checks it -/
+/-- one declarator of a local field with a qualified type:
+    `if (tk->sym != ID_ID) error("expected identifier.."); ns.emplace_back(*static_cast<id_token *>(tk)); tk = next();` -/
 def localVarU (toks : List Tok) : PR (Name × Option Expr) :=
   match toks with
   | .id n :: _ => do
@@ -335,7 +336,7 @@ def localVarU (toks : List Tok) : PR (Name × Option Expr) :=
     let (e, t2) ← optInit t1
     pure ((n, e), t2)
   | [] => .error .lexer
-  | _ => .error (.ub "static_cast<id_token *> of a token that is not an identifier (local field name after ',')")
+  | _ => .error (.msg eId)
 
 /-- `if (match(LBRACKET_ID)) { e = _expression(); if (!match(RBRACKET_ID)) error("expected ']'.."); }` -/
 def optCost (toks : List Tok) : PR (Option Expr) := do
@@ -568,10 +569,20 @@ def parseField (toks : List Tok) : PR FieldDecl := do
   let t3 ← expectSym .SEMICOLON eSemi t2
   pure (⟨tp, vs⟩, t3)
 
+/-- the return type of `_method_declaration()` when it is not `void`: a primitive type keyword
+    (`switch (tk->sym)`) or, `default:`, a qualified identifier -/
+def retType (toks : List Tok) : PR QId :=
+  match toks with
+  | .sym s :: _ =>
+    match primName s with
+    | some p => do let t ← adv toks; pure ([p], t)
+    | none => qid toks
+  | _ => qid toks
+
 /-- `_method_declaration()` -/
 def parseMethod (toks : List Tok) : PR MethodDecl := do
   let (b, t1) ← matchSym .VOID toks
-  let (rt, t2) ← (if b then (pure ([], t1) : PR QId) else qid toks)
+  let (rt, t2) ← (if b then (pure ([], t1) : PR QId) else retType toks)
   let (n, t3) ← expectId t2
   let (ps, t4) ← params t3
   let (ss, t5) ← body t4
@@ -631,11 +642,12 @@ def lookPrimMember (toks : List Tok) : Except PErr MemberKind := do
   | [] => .error .lexer
   | _ => .error (.msg eMember)
 
-/-- `switch (tk->sym) { case LPAREN_ID: method; case EQ_ID: case SEMICOLON_ID: field; default: error }` -/
+/-- `switch (tk->sym) { case LPAREN_ID: method; case EQ_ID: case COMMA_ID: case SEMICOLON_ID: field; default: error }` -/
 def memberTail (toks : List Tok) : Except PErr MemberKind :=
   match toks with
   | .sym .LPAREN :: _ => pure .method
   | .sym .EQ :: _ => pure .field
+  | .sym .COMMA :: _ => pure .field
   | .sym .SEMICOLON :: _ => pure .field
   | [] => .error .lexer
   | _ => .error (.msg eMember)
@@ -737,6 +749,16 @@ def lookTopMethod (toks : List Tok) : Except PErr Bool := do
     else pure false
   | _ => pure false
 
+/-- the look-ahead of `parse()` on a primitive type keyword: `tk = next(); if (match(ID_ID) && tk->sym == LPAREN_ID)`
+    announces a method, anything else a statement (a local field) -/
+def lookTopPrimMethod (toks : List Tok) : Except PErr Bool := do
+  let t1 ← adv toks
+  match t1 with
+  | .id _ :: _ => do
+    let t2 ← adv t1
+    pure (isSym .LPAREN t2)
+  | _ => pure false
+
 /-- one iteration of the `while (tk->sym != EOF_ID)` loop of `parse()` -/
 def topItem (toks : List Tok) : PR TopItem :=
   match toks with
@@ -753,14 +775,21 @@ def topItem (toks : List Tok) : PR TopItem :=
   | .bool _ :: _ => do let (s, t) ← parseStmt toks; pure (.stmt s, t)
   | .int _ :: _ => do let (s, t) ← parseStmt toks; pure (.stmt s, t)
   | .real _ :: _ => do let (s, t) ← parseStmt toks; pure (.stmt s, t)
+  | .str _ :: _ => do let (s, t) ← parseStmt toks; pure (.stmt s, t)
+  | .sym .LPAREN :: _ => do let (s, t) ← parseStmt toks; pure (.stmt s, t)
+  | .sym .PLUS :: _ => do let (s, t) ← parseStmt toks; pure (.stmt s, t)
+  | .sym .MINUS :: _ => do let (s, t) ← parseStmt toks; pure (.stmt s, t)
+  | .sym .NEW :: _ => do let (s, t) ← parseStmt toks; pure (.stmt s, t)
   | .id _ :: _ => do
     if (← lookTopMethod toks) then do let (d, t) ← parseMethod toks; pure (.method d, t)
     else do let (s, t) ← parseStmt toks; pure (.stmt s, t)
   | .sym s :: _ =>
     match primName s with
-    | some _ => do let (s, t) ← parseStmt toks; pure (.stmt s, t)
+    | some _ => do
+      -- either a primitive type method or a local field..
+      if (← lookTopPrimMethod toks) then do let (d, t) ← parseMethod toks; pure (.method d, t)
+      else do let (s, t) ← parseStmt toks; pure (.stmt s, t)
     | none => .error (.msg eDecl)
-  | _ => .error (.msg eDecl)
 
 /-- `while (tk->sym != EOF_ID) { … }` -/
 def topLoop : Nat → List Tok → Except PErr (List TopItem)
